@@ -211,6 +211,21 @@ fn run(ctx: &mut Ctx) {
             let mut l = chunks.clone();
             l.push(chunks[k].clone());
             fault(ctx, "duplicate chunk", l, rng);
+            // the copy arriving right after / right before the original, list otherwise in id order
+            for (name, at) in [("duplicate chunk adjacent (after)", k + 1), ("duplicate chunk adjacent (before)", k)] {
+                ctx.eval();
+                let mut l = chunks.clone();
+                l.insert(at, chunks[k].clone());
+                let v = l.clone();
+                match guard(|| PwbV2Packet::try_from(v).is_ok()) {
+                    Ok(false) => ctx.count(&format!("fault: {}", name)),
+                    Ok(true) => {
+                        ctx.violation(&format!("reassembly succeeded under fault: {}", name), format!("n={} chunk size {}", l.len(), cs), json!({"chunks_in_arrival_order": describe(&l)}));
+                        return;
+                    }
+                    Err(p) => ctx.panic_violation("PwbV2Packet::try_from(Vec<Chunk>)", &p, json!({})),
+                }
+            }
             let mut r2 = raw[k].clone();
             r2.device_id = pwb_device_id(other_mac);
             let mut l = chunks.clone();
